@@ -603,6 +603,30 @@ Definition golden_opaque : list string := [
   "rhp/v3.RPCExecuteProgramResponse";
   "rhp/v3.rpcResponse"].
 
+(* opaque codecs: hash of the normalised source text of the codec methods of the type *)
+Definition golden_opaque_src : list (string * string) := [
+  ("types.DecoderFunc", "80fd5a1970d3fe5f32a6737a126b41e3");
+  ("types.EncoderFunc", "36a0aa7b5f129b01387114f1896024b2");
+  ("types.V1Currency", "2b7090958465abcbf84c1a9e1b759344");
+  ("types.SpendPolicy", "641a5f517e443d8018717903f58bf29d");
+  ("types.V1SiafundOutput", "ea3bad06be8650cb51d08e19bbf36689");
+  ("types.V2TransactionsMultiproof", "7347ebc176144dbd22a55a2e99b209ad");
+  ("types.V2FileContractResolution", "23d78cbe1c39db6cc6b32e773aa8be40");
+  ("types.V2Transaction", "8ec4272d4ca50ad1e44ac3f9a339b0e6");
+  ("types.V2TransactionSemantics", "dff7b667560acf5c4baa0e96f56b3926");
+  ("consensus.ElementAccumulator", "bb41763c4c2c2c6821fd851d24b672cb");
+  ("consensus.State", "92716c35e1bb33b5074d3668bdbd6e6d");
+  ("gateway.V2BlockOutline", "32bb5f614f82b2503c7818d4f58e4d42");
+  ("rhp/v2.RPCReadRequest", "ce3d96747d637f75d719ae0aec75853b");
+  ("rhp/v2.RPCReadResponse", "d22d32f95735e0aa0326b5f4f8b5964a");
+  ("rhp/v2.RPCWriteRequest", "a8e5bc0ec6380caf25d5a4beda774891");
+  ("rhp/v2.loopKeyExchangeRequest", "5dbd387b0738680b47b9f0d964ceae64");
+  ("rhp/v2.rpcResponse", "1e21b0845833616b97a58cbe053b1814");
+  ("rhp/v3.Account", "0fb677b1047635188aaf7d06ff65eb80");
+  ("rhp/v3.RPCExecuteProgramRequest", "f4ffb833481ebcd0774c38c04293795e");
+  ("rhp/v3.RPCExecuteProgramResponse", "4f8410ee368645014e3609b7f1ad95ac");
+  ("rhp/v3.rpcResponse", "1e21b0845833616b97a58cbe053b1814")].
+
 (* struct fields and the expressions each encoder writes *)
 Definition golden_fields : list (string * list string * list string) := [
   ("types.Address", [], ["a"]);
